@@ -103,6 +103,35 @@ func runC17(c *Check) {
 			c.Bad("C17-R1", "NotifyNewTransactions ⟂ non-blocking-send", fnName(nf), p.Pos(nf.Pos()), "the notifier is not a non-blocking send on the notification channel: the transaction path blocks while a block is produced", nil)
 		}
 	}
+	// the send is attempted on every call: a notifier that returns early on some remembered
+	// state ("a notification is already outstanding") relies on that state being reset exactly
+	// when the loop takes the notification — reset later, every notification in between is lost
+	{
+		g := BuildECFG(p, nf, ownPkgOpts(rootPath+"/block", 1))
+		c.NoteGraph(g)
+		sel := g.Select(func(x *Node) bool {
+			s, ok := x.In.(*ssa.Select)
+			if !ok || x.Kind != NInstr {
+				return false
+			}
+			for _, st := range s.States {
+				if st.Dir == types.SendOnly {
+					if t := TermOf(st.Chan, x.Ctx); t != nil && t.Op == "field" && t.Name == notifyField {
+						return true
+					}
+				}
+			}
+			return false
+		})
+		if len(sel) == 0 {
+			c.Unk("C17-R12", "NotifyNewTransactions ⟂ send attempted on every call", fnName(nf), "", "anchor lost: the send on the notification channel")
+		} else {
+			c.Decide("C17-R12", "NotifyNewTransactions ⟂ send attempted on every call", fnName(nf), p.InstrPos(sel[0].In), "every path through the notifier passes the send attempt",
+				"the notifier can return without attempting the send on the notification channel (an early return on remembered state): a notification raised while that state says \"already notified\" — for example while the block triggered by the previous one is still being produced — never reaches the channel, the loop clears its flag after the block, and the new transactions wait for the idle interval", g,
+				g.PathAvoiding([]*Node{g.Entry}, nodeSet(g.Exits), nodeSet(sel)))
+		}
+	}
+	c.Doc("C17-R12", "EO: every path through NotifyNewTransactions passes the (non-blocking) send attempt on the notification channel: no early return on remembered state.")
 	// ---- the loops
 	agg := p.MustFunc(loopAggregation)
 	var lazy, normal *ssa.Function
